@@ -1,4 +1,4 @@
-import IpcModel.Gen
+import IpcModel.GenShm
 /-! C05 / C18: shared-memory regions of the unix back end (`BackingStore`, `OsIpcSharedMemory`) over a small kernel
 model: memory objects with contents, open descriptors, live mappings.  Identifiers (descriptor numbers, addresses) come
 from one fresh counter, so "never reused" is a modelling choice (creation-order ids, as in the ledger model).
